@@ -371,7 +371,12 @@ def trace_records(sched, alog, evs):
     cur_now = 0
     for ev in evs:
         a = ev["ev"]
-        if a in ("End", "AboutToPanic"):
+        if a in ("End", "Skip"):
+            continue
+        if a == "AboutToPanic":
+            # the process dies inside this step: no observation, the model marks the entry
+            st = ev["step"]
+            recs.append({"ev": "ApplyPanics", "i": st["i"], "now": 0, "e": alog[st["i"] - 1], "err": 0})
             continue
         post = ev.get("post")
         if a == "Reset":
@@ -484,6 +489,7 @@ class Engine:
             old_cleanup()
         ctx.cleanup = cleanup
         self.nrun = 0
+        self.env = {}           # extra environment of every harness process
         self.alogs = {}
         self.bg = concurrent.futures.ThreadPoolExecutor(max_workers=3)
         self.bgjobs = []
@@ -582,6 +588,7 @@ class Engine:
             vlib.write_ndjson(prog, chunks[k])
             rd = self.scratch("rd-" + tag)
             e = {"VERIF_FSM_PROGRAM": prog, "VERIF_FSM_OUT": outp, "VERIF_FSM_DIR": rd, "TMPDIR": self.scratch("tmp-" + tag)}
+            e.update(self.env)
             e.update(env or {})
             rc, out = self.ctx.run_bin([self.binary, "-test.run", "^TestVerifFSM$", "-test.count=1",
                                         "-test.timeout", "%ds" % timeout], env=e, timeout=timeout + 30, cwd=d)
